@@ -27,7 +27,7 @@ def make_profile():
 class Kit(object):
     """bottom probe | [control, (send, receive), mid probe] | protocol group | top (probe or given layer instance)."""
 
-    def __init__(self, sel, with_enc, top=None, profile=None):
+    def __init__(self, sel, with_enc, top=None, profile=None, props=None):
         from yowsup.stacks import YowStack, YowStackBuilder
         from yowsup.layers import YowParallelLayer, YowLayerEvent
         from yowsup.layers.axolotl import AxolotlSendLayer, AxolotlControlLayer, AxolotlReceivelayer
@@ -42,7 +42,10 @@ class Kit(object):
             layers += [AxolotlControlLayer, YowParallelLayer((AxolotlSendLayer, AxolotlReceivelayer))]
         layers += [self.mid, YowParallelLayer(YowStackBuilder.getProtocolLayers(**sel)), self.top]
         self.profile = profile or make_profile()
-        self.stack = YowStack(tuple(layers), reversed=False, props={"profile": self.profile, YowIqProtocolLayer.PROP_PING_INTERVAL: 0})
+        p_ = {"profile": self.profile, YowIqProtocolLayer.PROP_PING_INTERVAL: 0}
+        p_.update(props or {})
+        p_ = {k: v for k, v in p_.items() if v is not Ellipsis}      # (Ellipsis: leave the property unset)
+        self.stack = YowStack(tuple(layers), reversed=False, props=p_)
         self.group = self.stack.getLayer(len(layers) - 2)
         if with_enc:
             from yowsup.axolotl.manager import AxolotlManager
